@@ -26,8 +26,8 @@ Inductive node : Type :=
 (* syn::GenericArgument *)
 | NArgType (t : node)
 | NArgLifetime (lt : string)
-| NArgAssocType (t : node)                   (* Item = T  (the associated type's own generics are not inspected) *)
-| NArgConstraint (bounds : list node)        (* Item: Bound *)
+| NArgAssocType (gen : node) (t : node)      (* Item<gen> = T; gen: the binding's own arguments, NArgsNone | NAngle *)
+| NArgConstraint (gen : node) (bounds : list node)   (* Item<gen>: Bound *)
 | NArgConst                                  (* Const | AssocConst: not inspected *)
 (* syn::TypeParamBound *)
 | NBoundTrait (bound_lts : list string) (path : node)
@@ -80,9 +80,10 @@ Section TypeParams.
     | NArgsNone => UOk []
     | NAngle args => all args
     | NParenArgs ins out => uapp (all ins) (opt out)
-    | NArgType t | NArgAssocType t => uses_tp t
+    | NArgType t => uses_tp t
+    | NArgAssocType g t => uapp (uses_tp g) (uses_tp t)
     | NArgLifetime _ | NArgConst => UOk []
-    | NArgConstraint bs => all bs
+    | NArgConstraint g bs => uapp (uses_tp g) (all bs)
     | NBoundTrait _ p => uses_tp p
     | NBoundLifetime _ => UOk []
     | NBoundOther => UOk []
@@ -116,10 +117,11 @@ Section Lifetimes.
     | NArgsNone => UOk []
     | NAngle args => all args
     | NParenArgs ins out => uapp (all ins) (opt out)
-    | NArgType t | NArgAssocType t => uses_lt t
+    | NArgType t => uses_lt t
+    | NArgAssocType g t => uapp (uses_lt g) (uses_lt t)
     | NArgLifetime l => UOk (lt_hits set l)
     | NArgConst => UOk []
-    | NArgConstraint bs => all bs
+    | NArgConstraint g bs => uapp (uses_lt g) (all bs)
     | NBoundTrait bl p => uapp (uses_lt p) (lts bl)
     | NBoundLifetime l => UOk (lt_hits set l)
     | NBoundOther => UOk []
@@ -147,12 +149,14 @@ Section Occurs.
       In s segs -> occurs_tp (snd s) -> occurs_tp (NPath q leading segs)
   | OPathQSelf q leading segs :        (* inside a qualified self: only for declaration purposes *)
       declare = true -> occurs_tp q -> occurs_tp (NPath (Some q) leading segs)
-  | OBounds bs b n : (n = NTraitObject bs \/ n = NImplTrait bs \/ n = NArgConstraint bs) ->
+  | OBounds bs b n : (n = NTraitObject bs \/ n = NImplTrait bs \/ exists g, n = NArgConstraint g bs) ->
       In b bs -> occurs_tp b -> occurs_tp n
+  | OAssocGen g n :                      (* inside the generic arguments written on an associated-type binding / constraint *)
+      ((exists t, n = NArgAssocType g t) \/ (exists bs, n = NArgConstraint g bs)) -> occurs_tp g -> occurs_tp n
   | OAngle args a : In a args -> occurs_tp a -> occurs_tp (NAngle args)
   | OParenIn ins out i : In i ins -> occurs_tp i -> occurs_tp (NParenArgs ins out)
   | OParenOut ins o : occurs_tp o -> occurs_tp (NParenArgs ins (Some o))
-  | OArg t n : (n = NArgType t \/ n = NArgAssocType t) -> occurs_tp t -> occurs_tp n
+  | OArg t n : (n = NArgType t \/ exists g, n = NArgAssocType g t) -> occurs_tp t -> occurs_tp n
   | OBoundTrait bl p : occurs_tp p -> occurs_tp (NBoundTrait bl p).
 End Occurs.
 
@@ -163,9 +167,11 @@ Fixpoint known (n : node) : bool :=
   match n with
   | NSlice e | NArray e | NPtr e | NRef _ e | NParen e | NGroup e => known e
   | NBareFn _ ins out | NParenArgs ins out => all ins && opt out
-  | NTuple es | NTraitObject es | NImplTrait es | NAngle es | NArgConstraint es => all es
+  | NTuple es | NTraitObject es | NImplTrait es | NAngle es => all es
+  | NArgConstraint g es => known g && all es
   | NPath q _ segs => opt q && forallb (fun s => known (snd s)) segs
-  | NArgType t | NArgAssocType t | NBoundTrait _ t => known t
+  | NArgType t | NBoundTrait _ t => known t
+  | NArgAssocType g t => known g && known t
   | NUnknownType | NBoundOther => false
   | _ => true
   end.
